@@ -37,17 +37,29 @@
    ([C17_full_statement_refuted], witness "Add @\nx": a lone marker at a line end draws a warning
    that a trailing comment or trailing blanks remove; same on the implementation).  The statement
    of the property (recipe and validity) is [C17_full_statement_v].
+   analysis level (Proofs/EditAnalysis.v) the analysis pass and the metadata map read the events
+                 only through [proj] ([C17_analysis_blind], [C17_metadata_blind]), so for the model of
+                 CooklangParser::parse ([parse_model] of C03_parse_total, plus the metadata map) the
+                 three document-level edits leave the recipe, its validity and the metadata map
+                 EQUAL: [C17_crlf_recipe], [C17_extra_line_recipe(_fm)], [C17_mid_comment_recipe(_fm)].
+                 Hypotheses: the YAML oracles do not see LF/CRLF; the source does not select text
+                 mode (`[mode]: text`), where the collector copies component SOURCE by span -
+                 before the repair 200c896 comments included ([C17_text_mode_refuted_before_fix],
+                 a defect found here), now without them ([C17_strip_mid_comment], [C17_strip_crlf]).
+
    NOT proved: the trailing ` --c` / trailing blanks at document level and inside step blocks with
    components (block level only: metadata line, section line, marker-free step, paragraph), the
-   blank-on-both-sides comment variant, comments after a number token.  These are decided on every
-   run by the metamorphic monitor of checks/c17.py on the implementation, the model being held to
-   the implementation on the edited texts by the L-lex/L-ev correspondence. *)
+   blank-on-both-sides comment variant, comments after a number token, text mode at document level.
+   These are decided on every run by the metamorphic monitor of checks/c17.py on the implementation
+   (text-mode readings included), the model being held to the implementation on the edited texts by
+   the L-lex/L-ev correspondence. *)
 From Coq Require Import Permutation.
 From CL Require Import Base.StrLemmas Model.Lexer Model.PText Model.CommentMask Model.Parser Model.Edits
   Proofs.LexerProofs Proofs.MaskProofs Proofs.MaskGen Proofs.EditProofs Proofs.EditParserProofs Proofs.EditLink
   Proofs.ParserTotal Proofs.EditSimDefs Proofs.EditSimBlock Proofs.EditSimDoc Proofs.EditSimAll Proofs.EditSimCrlf Proofs.EditSimText Proofs.EditSimExtra Gen.CharClass.
 From CL Require Proofs.EditSimLine.
 From CL Require Import Proofs.EditInsDefs Proofs.EditInsStep Proofs.EditInsAll.
+From CL Require Model.Analysis Model.EventBridge Model.MetaMap Gen.ExtBits Proofs.AnalysisTotal Proofs.ParseTotal Proofs.EditAnalysis.
 
 (* ---------------------------------------------------------------- lexer level *)
 
@@ -233,8 +245,10 @@ Example C17_fence_crlf : is_fence [45; 45; 45; 13; 10] = true /\ is_fence [45; 4
 Proof. split; reflexivity. Qed.
 
 (* ---------------------------------------------------------------- the full statement *)
-(* Events without positions, as the analysis stage reads them: names, values, units, notes,
-   metadata as their trimmed strings; step and paragraph text as the raw rendered string. *)
+(* Events without positions, as the analysis stage reads them: names, aliases, units, notes,
+   section names and metadata keys as their trimmed strings (text_trimmed), metadata values as
+   text_outer_trimmed, step and paragraph text as the raw rendered string, the front matter up to
+   its line endings; [C17_analysis_blind] below: the analysis result is a function of this. *)
 (* [tx], [pq], [pev], [proj]: Proofs/EditSimDefs.v *)
 Definition is_pdiag (e : pev) : bool := match e with PDiag _ _ => true | _ => false end.
 
@@ -782,3 +796,250 @@ Definition C17_full_statement_v : Prop :=
         forall l tl, lex_at U l 0 = Some tl -> blank_line tl ->
           Forall (fun x => is_fence x = false) (lines_inclusive l) ->
           ev_equiv_v (events U cfg (pre ++ a ++ l ++ b)) (events U cfg s))).
+
+(* ---------------------------------------------------------------- the analysis stage *)
+(* From events to the recipe (Proofs/EditAnalysis.v).  [parse_model] (Proofs/ParseTotal.v, the
+   subject of C03_parse_total) is CooklangParser::parse = analysis . bridge . events, returning the
+   recipe of Model/Analysis.v - sections, steps, items, the ingredient / cookware / timer tables with
+   names, aliases, notes, quantities, modifiers and relations, the inline-quantity count; it carries
+   no span - and its validity; [parse_meta_model] is the metadata map of the same call
+   (Model/MetaMap.v).  [same_parse_cfg ac] = both are EQUAL for the two sources (equal outcomes:
+   same recipe, same validity, same panic site if any; that there is no panic is C03_parse_total),
+   for the analysis code selected by [ac] ([Analysis.cfgF] = the code as it is now:
+   [parse_model_cfg cfgF] is [parse_model]; the theorems hold for the earlier code too).
+
+   ANALYSIS BLINDNESS.  Two event streams with the same projection [proj] - whatever their spans,
+   comment and newline texts, and whatever the two source texts - give the same analysis result and
+   the same metadata map.  Hypotheses, both needed:
+     [no_text_mode]  no metadata entry `[mode]: text` / `[define]: text` (or MODES off): in text
+                     mode the collector copies the SOURCE of a component, by its span, into the
+                     paragraph (event_consumer.rs:570-595), so the recipe depends on more than the
+                     events' content.  Before the repair 200c896 the copy included comments and
+                     the property failed ([C17_text_mode_refuted_before_fix]); now the copy leaves
+                     comments out ([C17_strip_*] below), but a document-level theorem for text
+                     mode would need the component spans related through the whole parser, which
+                     the event relation [erel] does not carry: text mode stays a hypothesis here
+                     and is decided by the monitor of checks/c17.py.
+     [crlf_blind]    the YAML oracles answer alike on texts that differ in LF / CRLF only ([proj]
+                     keeps the front matter up to its line endings, as the CRLF edit requires).
+   The other oracles (case folding, inline quantities, unit class) are applied to strings that the
+   projection keeps, hence to equal arguments; nothing is assumed about them. *)
+Theorem C17_analysis_blind :
+  forall ci_key yaml_ok find_iq unit_class x acfg in1 in2 e1 e2,
+    EditAnalysis.crlf_blind yaml_ok ->
+    same_events e1 e2 -> EditAnalysis.no_text_mode x e1 ->
+    Analysis.analyse ci_key yaml_ok find_iq unit_class in1 x acfg (EventBridge.abstract_events e1)
+    = Analysis.analyse ci_key yaml_ok find_iq unit_class in2 x acfg (EventBridge.abstract_events e2).
+Proof. intros. apply EditAnalysis.analyse_blind; assumption. Qed.
+Print Assumptions C17_analysis_blind.
+
+Theorem C17_metadata_blind :
+  forall (Y : Type) (ystr : str -> Y) (yeqb : Y -> Y -> bool) (yaml : str -> option (list (Y * Y))) modes e1 e2,
+    EditAnalysis.crlf_blind yaml -> same_events e1 e2 ->
+    MetaMap.metadata_of Y ystr yeqb yaml modes e1 = MetaMap.metadata_of Y ystr yeqb yaml modes e2.
+Proof. intros. apply EditAnalysis.metadata_blind; assumption. Qed.
+Print Assumptions C17_metadata_blind.
+
+(* CooklangParser::parse, CRLF conversion: every source without a backslash or a lone carriage
+   return, with or without a front matter *)
+Theorem C17_crlf_recipe :
+  forall ac cfg ci_key yaml_ok find_iq unit_class x Y ystr yeqb yaml s,
+    p_strict_escape cfg = false -> no_backslash s = true -> no_lone_cr s = true ->
+    EditAnalysis.crlf_blind yaml_ok -> EditAnalysis.crlf_blind yaml ->
+    EditAnalysis.src_no_text_mode U cfg x s ->
+    EditAnalysis.same_parse_cfg ac U cfg ci_key yaml_ok find_iq unit_class x Y ystr yeqb yaml s (crlf s).
+Proof.
+  intros ac cfg ci_key yaml_ok find_iq unit_class x Y ystr yeqb yaml s Hc Hb Hl By Bm Hm.
+  apply EditAnalysis.parse_blind; try assumption.
+  apply (crlf_events_full U cfg gen_eol_breaks); assumption.
+Qed.
+Print Assumptions C17_crlf_recipe.
+
+(* a blank or comment-only line between blocks (hypotheses of [C17_extra_line_events(_fm)]) *)
+Theorem C17_extra_line_recipe :
+  forall ac cfg ci_key yaml_ok find_iq unit_class x Y ystr yeqb yaml a l b ta tl tb,
+    p_strict_escape cfg = false ->
+    parse_frontmatter cfg (a ++ b) = None ->
+    Forall (fun y => is_fence y = false) (lines_inclusive l) ->
+    lex_at U a 0 = Some ta -> lex_at U l 0 = Some tl -> lex_at U b (blen a) = Some tb ->
+    (ta = [] \/ exists p nl, ta = p ++ [nl] /\ kind nl = KNewline) -> blank_line tl ->
+    reach (ta ++ tb) tb ->
+    EditAnalysis.crlf_blind yaml_ok -> EditAnalysis.crlf_blind yaml ->
+    EditAnalysis.src_no_text_mode U cfg x (a ++ b) ->
+    EditAnalysis.same_parse_cfg ac U cfg ci_key yaml_ok find_iq unit_class x Y ystr yeqb yaml (a ++ b) (a ++ l ++ b).
+Proof.
+  intros ac cfg ci_key yaml_ok find_iq unit_class x Y ystr yeqb yaml a l b ta tl tb Hc F1 Hf La Ll Lb Hta Hl Hr By Bm Hm.
+  apply EditAnalysis.parse_blind; try assumption.
+  apply (extra_line_none U cfg gen_special_breaks gen_eol_breaks a l b ta tl tb); assumption.
+Qed.
+Print Assumptions C17_extra_line_recipe.
+
+Theorem C17_extra_line_recipe_fm :
+  forall ac cfg ci_key yaml_ok find_iq unit_class x Y ystr yeqb yaml s fm a l b ta tl tb,
+    p_strict_escape cfg = false ->
+    parse_frontmatter cfg s = Some fm -> cook_text fm = a ++ b -> a ++ b <> [] ->
+    lex_at U a (cook_off fm) = Some ta -> lex_at U l 0 = Some tl -> lex_at U b (cook_off fm + blen a) = Some tb ->
+    (ta = [] \/ exists p nl, ta = p ++ [nl] /\ kind nl = KNewline) -> blank_line tl ->
+    reach (ta ++ tb) tb ->
+    EditAnalysis.crlf_blind yaml_ok -> EditAnalysis.crlf_blind yaml ->
+    EditAnalysis.src_no_text_mode U cfg x s ->
+    EditAnalysis.same_parse_cfg ac U cfg ci_key yaml_ok find_iq unit_class x Y ystr yeqb yaml
+      s (take_bytes s (cook_off fm) ++ a ++ l ++ b).
+Proof.
+  intros ac cfg ci_key yaml_ok find_iq unit_class x Y ystr yeqb yaml s fm a l b ta tl tb Hc F C Hne La Ll Lb Hta Hl Hr By Bm Hm.
+  apply EditAnalysis.parse_blind; try assumption.
+  apply (extra_line_some U cfg gen_special_breaks gen_eol_breaks s fm a l b ta tl tb); assumption.
+Qed.
+Print Assumptions C17_extra_line_recipe_fm.
+
+(* an unspaced block comment directly after a word, before a blank, outside braces (hypotheses of
+   [C17_mid_comment_events(_fm)]) *)
+Theorem C17_mid_comment_recipe :
+  forall ac cfg ci_key yaml_ok find_iq unit_class x Y ystr yeqb yaml a b c p wd ws tb',
+    p_strict_escape cfg = false -> no_close c = true ->
+    parse_frontmatter cfg (a ++ b) = None -> parse_frontmatter cfg (a ++ block_comment_text c ++ b) = None ->
+    lex_at U a 0 = Some (p ++ [wd]) -> lex_at U b (blen a) = Some (ws :: tb') ->
+    lex_at U (a ++ b) 0 = Some ((p ++ [wd]) ++ ws :: tb') ->
+    kind wd = KWord -> kind ws = KWs -> mode_after MOut p = MOut ->
+    EditAnalysis.crlf_blind yaml_ok -> EditAnalysis.crlf_blind yaml ->
+    EditAnalysis.src_no_text_mode U cfg x (a ++ b) ->
+    EditAnalysis.same_parse_cfg ac U cfg ci_key yaml_ok find_iq unit_class x Y ystr yeqb yaml
+      (a ++ b) (a ++ block_comment_text c ++ b).
+Proof.
+  intros ac cfg ci_key yaml_ok find_iq unit_class x Y ystr yeqb yaml a b c p wd ws tb' Hs Hc F1 F2 La Lb Lab Kw Ks Hmo By Bm Hm.
+  apply EditAnalysis.parse_blind; try assumption.
+  apply (mid_comment_events_all cfg U gen_special_breaks gen_eol_breaks a b c p wd ws tb'); assumption.
+Qed.
+Print Assumptions C17_mid_comment_recipe.
+
+Theorem C17_mid_comment_recipe_fm :
+  forall ac cfg ci_key yaml_ok find_iq unit_class x Y ystr yeqb yaml s fm a b c p wd ws tb',
+    p_strict_escape cfg = false -> no_close c = true ->
+    parse_frontmatter cfg s = Some fm -> cook_text fm = a ++ b -> a ++ b <> [] ->
+    lex_at U a (cook_off fm) = Some (p ++ [wd]) -> lex_at U b (cook_off fm + blen a) = Some (ws :: tb') ->
+    lex_at U (a ++ b) (cook_off fm) = Some ((p ++ [wd]) ++ ws :: tb') ->
+    kind wd = KWord -> kind ws = KWs -> mode_after MOut p = MOut ->
+    EditAnalysis.crlf_blind yaml_ok -> EditAnalysis.crlf_blind yaml ->
+    EditAnalysis.src_no_text_mode U cfg x s ->
+    EditAnalysis.same_parse_cfg ac U cfg ci_key yaml_ok find_iq unit_class x Y ystr yeqb yaml
+      s (take_bytes s (cook_off fm) ++ a ++ block_comment_text c ++ b).
+Proof.
+  intros ac cfg ci_key yaml_ok find_iq unit_class x Y ystr yeqb yaml s fm a b c p wd ws tb' Hs Hc F C Hne La Lb Lab Kw Ks Hmo By Bm Hm.
+  apply EditAnalysis.parse_blind; try assumption.
+  apply (mid_comment_events_fm_all cfg U gen_special_breaks gen_eol_breaks s fm a b c p wd ws tb'); assumption.
+Qed.
+Print Assumptions C17_mid_comment_recipe_fm.
+
+(* the hypotheses are satisfiable: all extensions on (MODES included), "Add @salt and" with the
+   comment after "salt"; oracles that ignore their argument are [crlf_blind]; the source selects
+   text mode nowhere.  With C03_parse_total both parses then return the same recipe. *)
+Definition cfg_all : pcfg :=
+  {| p_ext := ExtBits.X_ALL; p_debug := true; p_strict_escape := false; p_note_label_old := false; p_fm_anywhere := false |}.
+Definition x_all : Analysis.aext := {| Analysis.x_modes := true; Analysis.x_inline := true; Analysis.x_advanced := true |}.
+
+Example C17_recipe_hypotheses_satisfiable :
+  EditAnalysis.crlf_blind (fun _ : str => true)
+  /\ EditAnalysis.crlf_blind (fun _ : str => @None (list (str * str)))
+  /\ EditAnalysis.src_no_text_mode U cfg_all x_all ([65; 100; 100; 32; 64; 115; 97; 108; 116] ++ [32; 97; 110; 100])
+  /\ parse_frontmatter cfg_all ([65; 100; 100; 32; 64; 115; 97; 108; 116] ++ [32; 97; 110; 100]) = None
+  /\ parse_frontmatter cfg_all ([65; 100; 100; 32; 64; 115; 97; 108; 116] ++ block_comment_text [99] ++ [32; 97; 110; 100]) = None.
+Proof.
+  split; [intros a b _; reflexivity|]. split; [intros a b _; reflexivity|].
+  split; [apply EditAnalysis.src_no_text_mode_dec; vm_compute; reflexivity|].
+  split; vm_compute; reflexivity.
+Qed.
+
+Example C17_mid_comment_recipe_instance :
+  forall ci_key find_iq unit_class,
+    AnalysisTotal.iq_shrinks find_iq ->
+    exists r,
+      ParseTotal.parse_model U cfg_all ci_key (fun _ => true) find_iq unit_class x_all
+        ([65; 100; 100; 32; 64; 115; 97; 108; 116] ++ [32; 97; 110; 100]) = Done r
+      /\ ParseTotal.parse_model U cfg_all ci_key (fun _ => true) find_iq unit_class x_all
+           ([65; 100; 100; 32; 64; 115; 97; 108; 116] ++ block_comment_text [99] ++ [32; 97; 110; 100]) = Done r.
+Proof.
+  intros ci_key find_iq unit_class Hq.
+  destruct (ParseTotal.parse_total U cfg_all ci_key (fun _ => true) find_iq unit_class x_all
+              ([65; 100; 100; 32; 64; 115; 97; 108; 116] ++ [32; 97; 110; 100]) eq_refl eq_refl Hq) as (r & E);
+    [vm_compute; reflexivity|].
+  exists r. split; [exact E|]. rewrite <- E. symmetry.
+  destruct C17_recipe_hypotheses_satisfiable as (B1 & B2 & Hm & F1 & F2).
+  refine (proj1 (C17_mid_comment_recipe Analysis.cfgF cfg_all ci_key (fun _ => true) find_iq unit_class x_all
+            (list N) (fun s => s) (fun _ _ => true) (fun _ => None)
+            [65; 100; 100; 32; 64; 115; 97; 108; 116] [32; 97; 110; 100] [99] _ _ _ _
+            eq_refl eq_refl F1 F2 _ _ _ _ _ _ B1 B2 Hm)).
+  - instantiate (2 := [_; _; _]). vm_compute. reflexivity.
+  - vm_compute. reflexivity.
+  - vm_compute. reflexivity.
+  - reflexivity.
+  - reflexivity.
+  - reflexivity.
+Qed.
+
+(* ---------------------------------------------------------------- text mode *)
+(* ">> [mode]: text\n@sea" | " salt{}": the comment goes after the word "sea", before the blank,
+   outside braces - every hypothesis of [C17_mid_comment_events] holds and the events are
+   [proj]-equal - but the block is read in text mode, where the collector copies the component's
+   source.  With the code before the repair 200c896 ([Analysis.cfgT]) the copy included the comment:
+   Content::Text("@sea salt{}") against Content::Text("@sea[-c-] salt{}").  The implementation at
+   17e6a01 did the same (replayed through harness/src/bin/recipe.rs, all extensions, both results
+   valid); also with CRLF ("@a\nb{}" / "@a\r\nb{}") and with a trailing comment inside a component
+   that spans two lines. *)
+Definition tm_a : str := [62;62;32;91;109;111;100;101;93;58;32;116;101;120;116;10; 64;115;101;97].
+Definition tm_b : str := [32;115;97;108;116;123;125].
+
+Theorem C17_text_mode_refuted_before_fix :
+  exists p wd ws tb',
+    parse_frontmatter cfg_all (tm_a ++ tm_b) = None
+    /\ parse_frontmatter cfg_all (tm_a ++ block_comment_text [99] ++ tm_b) = None
+    /\ lex_at U tm_a 0 = Some (p ++ [wd]) /\ lex_at U tm_b (blen tm_a) = Some (ws :: tb')
+    /\ lex_at U (tm_a ++ tm_b) 0 = Some ((p ++ [wd]) ++ ws :: tb')
+    /\ kind wd = KWord /\ kind ws = KWs /\ mode_after MOut p = MOut
+    /\ forall ci_key yaml_ok find_iq unit_class,
+         EditAnalysis.parse_model_cfg Analysis.cfgT U cfg_all ci_key yaml_ok find_iq unit_class x_all
+           (tm_a ++ block_comment_text [99] ++ tm_b)
+         <> EditAnalysis.parse_model_cfg Analysis.cfgT U cfg_all ci_key yaml_ok find_iq unit_class x_all (tm_a ++ tm_b).
+Proof.
+  eexists (firstn 10 (match lex_at U tm_a 0 with Some t => t | None => [] end)), _, _, _.
+  split; [vm_compute; reflexivity|]. split; [vm_compute; reflexivity|].
+  split; [vm_compute; reflexivity|]. split; [vm_compute; reflexivity|]. split; [vm_compute; reflexivity|].
+  split; [reflexivity|]. split; [reflexivity|]. split; [vm_compute; reflexivity|].
+  intros ci_key yaml_ok find_iq unit_class. vm_compute. discriminate.
+Qed.
+Print Assumptions C17_text_mode_refuted_before_fix.
+
+(* the same pair with the code as it is now: equal recipes *)
+Example C17_text_mode_fixed_instance :
+  forall ci_key yaml_ok find_iq unit_class,
+    ParseTotal.parse_model U cfg_all ci_key yaml_ok find_iq unit_class x_all (tm_a ++ block_comment_text [99] ++ tm_b)
+    = ParseTotal.parse_model U cfg_all ci_key yaml_ok find_iq unit_class x_all (tm_a ++ tm_b).
+Proof. intros. vm_compute. reflexivity. Qed.
+
+(* What text mode keeps of a component's source after the repair: [Analysis.strip_comments], defined
+   by the comment mask of Model/CommentMask.v.  It is what the code computes - the texts of the tokens
+   of `lexer::Cursor` over the slice, LineComment and BlockComment tokens left out: *)
+Theorem C17_strip_is_lexer :
+  forall s off ts,
+    lex_at U s off = Some ts ->
+    Analysis.strip_comments s = concat (map tstr (filter EditAnalysis.not_comment ts)).
+Proof. exact (EditAnalysis.strip_comments_is_lexer U gen_special_breaks). Qed.
+Print Assumptions C17_strip_is_lexer.
+
+(* a block comment at a token boundary of the source, after a token that is not open-ended, does
+   not change it ("@sea[-c-] salt{}" / "@sea salt{}") *)
+Theorem C17_strip_mid_comment :
+  forall a b ta tb c,
+    no_close c = true ->
+    lex_at U a 0 = Some ta -> lex_at U b (blen a) = Some tb -> lex_at U (a ++ b) 0 = Some (ta ++ tb) ->
+    last_open_ended ta = false ->
+    Analysis.strip_comments (a ++ block_comment_text c ++ b) = Analysis.strip_comments (a ++ b).
+Proof. exact (EditAnalysis.strip_mid_comment U gen_special_breaks gen_eol_breaks). Qed.
+Print Assumptions C17_strip_mid_comment.
+
+(* CRLF conversion changes it in its line endings only (a step may wrap inside a component) *)
+Theorem C17_strip_crlf :
+  forall s,
+    no_backslash s = true -> no_lone_cr s = true ->
+    EditAnalysis.drop_cr (Analysis.strip_comments (crlf s)) = EditAnalysis.drop_cr (Analysis.strip_comments s).
+Proof. exact (EditAnalysis.strip_crlf U gen_special_breaks gen_eol_breaks). Qed.
+Print Assumptions C17_strip_crlf.
